@@ -88,8 +88,34 @@ def case_folding_rule(ctx: Ctx, rid: str):
     ctx.floor(rid, 1)
 
 
+def provenance_flag_rule(ctx: Ctx, rid: str, reach):
+    """`provided` / `inherited` flags record where a value came from, and they are only maintained while the global attribute mode
+    is 0 (parsing): a value set through the API after scheduling is not "provided".  Nothing reachable from Report.generate decides a
+    rendering question by those flags -- it would render the same report differently depending on when its attributes were set.
+    Zero expected; built-in control."""
+    def sites(fn_node):
+        return [c for c in ast.walk(fn_node) if isinstance(c, ast.Call) and isinstance(c.func, ast.Attribute) and c.func.attr in ("provided", "inherited")
+                and c.args and isinstance(c.args[0], ast.Constant)]
+    ctrl = ast.parse("def f(self):\n    if not self.report.provided('timeFormat'):\n        return 1\n    return self.a('timeFormat')\n")
+    if len(sites(ctrl.body[0])) != 1:
+        raise AnchorMissing("provenance-flag rule: built-in control sample no longer matches")
+    n = 0
+    for fn in sorted(reach, key=lambda f: f.key):
+        if not fn.module.rel.startswith("scriptplan/report/"):
+            continue
+        n += 1
+        for c in sites(fn.node):
+            ctx.ob(rid, f"{fn.qual}: {norm(c)[:50]}", (fn, c), False,
+                   f"{norm(c)[:50]} is true only for values set while the project file was parsed (the flag is not maintained in the other attribute "
+                   "modes): a format or column set through the API is ignored, and the cell is not the value rendered with the effective format",
+                   key=key_of(rid, fn, c, "provenance flag"))
+    ctx.ob(rid, f"no rendering decision reads a provenance flag ({n} report functions)", None, True, "decisions read values, not where they came from",
+           nontrivial=False)
+
+
 def run_extra(ctx: Ctx):
     case_folding_rule(ctx, "R18.10")
+    provenance_flag_rule(ctx, "R18.11", ctx.cg.reach([ctx.repo.func("Report.generate")]))
     # ---------------------------------------------------------------- R18.9 nothing rendered is answered from state that outlives the question
     from .common import process_state_rule
     process_state_rule(ctx, "R18.9", [ctx.repo.func("Report.generate")],
